@@ -438,11 +438,11 @@ Lemma construct_wf d r rs ds s :
   construct d r rs ds = Ok s ->
   length (dom s) = length (rng s) ->
   Forall (fun i => i < dsize s) (dom s) -> Forall (fun i => i < rsize s) (rng s) ->
-  wf_slicer s /\ pend s = None.
+  wf_slicer s /\ pend s = [].
 Proof.
   intros Hc Hl Hd Hr.
   assert (H : (onto s = true -> rng s = seq 0 (length (dom s)) /\ rsize s = length (dom s))
-              /\ pend s = None).
+              /\ pend s = []).
   { unfold construct in Hc.
     destruct d as [d0|]; destruct r as [r0|]; try discriminate;
       destruct rs as [rs0|]; destruct ds as [ds0|];
@@ -470,15 +470,18 @@ Lemma bind_ext {A B} (r : res A) (f g : A -> res B) :
   (forall a, f a = g a) -> bind r f = bind r g.
 Proof. intros H. destruct r; cbn; auto. Qed.
 
+Lemma bind_ok {A} (r : res A) : bind r (fun a => Ok a) = r.
+Proof. destruct r; reflexivity. Qed.
+
 (* every slicer-valued pending operand refers to an OLDER object *)
 Definition closed (h : heap) : Prop :=
-  forall i s j p, nth_error h i = Some s -> pend s = Some (OSlicer j, p) -> j < i.
+  forall i s j p, nth_error h i = Some s -> In (OSlicer j, p) (pend s) -> j < i.
 
 Lemma closed_nil : closed [].
 Proof. intros i s j p H. destruct i; discriminate. Qed.
 
 Lemma closed_snoc h s :
-  closed h -> (forall j p, pend s = Some (OSlicer j, p) -> j < length h) -> closed (h ++ [s]).
+  closed h -> (forall j p, In (OSlicer j, p) (pend s) -> j < length h) -> closed (h ++ [s]).
 Proof.
   intros Hc Hs i s' j p Hn Hp.
   destruct (Nat.lt_ge_cases i (length h)) as [Hlt|Hge].
@@ -490,7 +493,7 @@ Proof.
 Qed.
 
 Lemma closed_lt h i s j p :
-  closed h -> nth_error h i = Some s -> pend s = Some (OSlicer j, p) -> j < i /\ i < length h.
+  closed h -> nth_error h i = Some s -> In (OSlicer j, p) (pend s) -> j < i /\ i < length h.
 Proof.
   intros Hc Hn Hp. split; [eapply Hc; eassumption|]. apply nth_error_Some. congruence.
 Qed.
@@ -498,13 +501,34 @@ Qed.
 Section Frame.
   Variable ext_scalar : pop -> Z -> value -> res value.
   Variable ext_mat : pop -> nat -> list crow -> value -> res value.
-  Notation apply := (apply ext_scalar ext_mat).
-  Notation step := (step ext_scalar ext_mat).
-  Notation run := (run ext_scalar ext_mat).
+  Variable ext_ad : pop -> list Z -> nat -> list crow -> value -> res value.
+  Notation apply := (apply ext_scalar ext_mat ext_ad).
+  Notation step := (step ext_scalar ext_mat ext_ad).
+  Notation run := (run ext_scalar ext_mat ext_ad).
+  Notation run_pend := (run_pend ext_scalar ext_mat ext_ad).
+  Notation pend_step := (pend_step ext_scalar ext_mat ext_ad).
 
   (* S_i @ x as the statement SApply evaluates it *)
   Definition apply_top (h : heap) (i : nat) (x : value) : res value :=
     apply (S (length h)) h i x.
+
+  Lemma run_pend_app ap a b y : run_pend ap (a ++ b) y = bind (run_pend ap a y) (run_pend ap b).
+  Proof.
+    revert y; induction a as [|[o p] a IH]; intros y; cbn [C36.run_pend app]; [reflexivity|].
+    rewrite bind_assoc. apply bind_ext. intros z. apply IH.
+  Qed.
+
+  (* the pending pairs only consult [ap] at the slicer operands they mention *)
+  Lemma run_pend_ext ap1 ap2 l :
+    (forall j p y, In (OSlicer j, p) l -> ap1 j y = ap2 j y) ->
+    forall y, run_pend ap1 l y = run_pend ap2 l y.
+  Proof.
+    induction l as [|[o p] l IH]; intros H y; cbn [C36.run_pend]; [reflexivity|].
+    assert (Hs : pend_step ap1 o p y = pend_step ap2 o p y).
+    { destruct o as [c|nc rows|j|v nc jac]; cbn [C36.pend_step]; try reflexivity.
+      destruct p; try reflexivity. apply (H j PMatmul). left. reflexivity. }
+    rewrite Hs. apply bind_ext. intros z. apply IH. intros j q w Hin. apply (H j q). right. exact Hin.
+  Qed.
 
   Lemma apply_ext h k : closed h -> forall f i x,
       i < length h -> apply f (h ++ k) i x = apply f h i x.
@@ -512,9 +536,8 @@ Section Frame.
     intros Hc. induction f as [|f IH]; intros i x Hi; [reflexivity|].
     cbn [C36.apply]. rewrite nth_error_app1 by exact Hi.
     destruct (nth_error h i) as [s|] eqn:Hn; [|reflexivity].
-    apply bind_ext. intros y. destruct (pend s) as [[[c|nc rows|j] p]|] eqn:Hp; try reflexivity.
-    destruct p; try reflexivity. apply IH.
-    destruct (closed_lt h i s j PMatmul Hc Hn Hp). lia.
+    apply bind_ext. intros y. apply run_pend_ext. intros j p z Hin. apply IH.
+    destruct (closed_lt h i s j p Hc Hn Hin). lia.
   Qed.
 
   Lemma apply_fuel h : closed h -> forall f1 f2 i x,
@@ -523,19 +546,18 @@ Section Frame.
     intros Hc. induction f1 as [|f1 IH]; intros f2 i x H1 H2; [lia|].
     destruct f2 as [|f2]; [lia|]. cbn [C36.apply].
     destruct (nth_error h i) as [s|] eqn:Hn; [|reflexivity].
-    apply bind_ext. intros y. destruct (pend s) as [[[c|nc rows|j] p]|] eqn:Hp; try reflexivity.
-    destruct p; try reflexivity.
-    destruct (closed_lt h i s j PMatmul Hc Hn Hp). apply IH; lia.
+    apply bind_ext. intros y. apply run_pend_ext. intros j p z Hin.
+    destruct (closed_lt h i s j p Hc Hn Hin). apply IH; lia.
   Qed.
 
   Lemma apply_top_ext h k i x :
-    closed h -> closed (h ++ k) -> i < length h -> apply_top (h ++ k) i x = apply_top h i x.
+    closed h -> i < length h -> apply_top (h ++ k) i x = apply_top h i x.
   Proof.
-    intros Hc Hck Hi. unfold apply_top. rewrite apply_ext by assumption.
+    intros Hc Hi. unfold apply_top. rewrite apply_ext by assumption.
     apply apply_fuel; [exact Hc | rewrite app_length; lia | lia].
   Qed.
 
-  Lemma construct_pend d r rs ds s : construct d r rs ds = Ok s -> pend s = None.
+  Lemma construct_pend d r rs ds s : construct d r rs ds = Ok s -> pend s = [].
   Proof.
     unfold construct. intros Hc.
     destruct d as [d0|]; destruct r as [r0|]; try discriminate;
@@ -546,6 +568,17 @@ Section Frame.
       try discriminate; inversion Hc; reflexivity.
   Qed.
 
+  Lemma with_pend_closed h sj o p j :
+    closed h -> nth_error h j = Some sj ->
+    (forall id, o = OSlicer id -> id < length h) ->
+    forall j' p', In (OSlicer j', p') (pend (with_pend (copy sj) o p)) -> j' < length h.
+  Proof.
+    intros Hc Hj Ho j' p' Hin. cbn [pend with_pend copy] in Hin. apply in_app_or in Hin.
+    destruct Hin as [Hin|[Heq|[]]].
+    - destruct (closed_lt h j sj j' p' Hc Hj Hin). lia.
+    - inversion Heq; subst. apply Ho. reflexivity.
+  Qed.
+
   (* one statement only appends objects, and keeps the heap closed *)
   Lemma step_frame h st :
     closed h -> exists k, fst (step h st) = h ++ k /\ closed (h ++ k).
@@ -553,11 +586,11 @@ Section Frame.
     intros Hc. destruct st as [d r rs ds|i|i|i j|o p j|i x]; cbn [C36.step].
     - destruct (construct d r rs ds) as [s|e] eqn:Hs.
       + exists [s]. split; [reflexivity|]. apply closed_snoc; [exact Hc|].
-        intros j p Hp. rewrite (construct_pend _ _ _ _ _ Hs) in Hp. discriminate.
+        intros j p Hp. rewrite (construct_pend _ _ _ _ _ Hs) in Hp. destruct Hp.
       + exists []. rewrite app_nil_r. auto.
     - destruct (nth_error h i) as [s|].
       + exists [transpose s]. split; [reflexivity|]. apply closed_snoc; [exact Hc|].
-        intros j p Hp. discriminate.
+        intros j p Hp. destruct Hp.
       + exists []. rewrite app_nil_r. auto.
     - destruct (nth_error h i) as [s|] eqn:Hn.
       + exists [copy s]. split; [reflexivity|]. apply closed_snoc; [exact Hc|].
@@ -565,16 +598,14 @@ Section Frame.
       + exists []. rewrite app_nil_r. auto.
     - destruct (nth_error h i) as [si|] eqn:Hi; [destruct (nth_error h j) as [sj|] eqn:Hj|].
       + exists [with_pend (copy sj) (OSlicer i) PMatmul]. split; [reflexivity|].
-        apply closed_snoc; [exact Hc|]. intros j' p Hp. cbn in Hp. inversion Hp; subst.
-        apply nth_error_Some. congruence.
+        apply closed_snoc; [exact Hc|]. apply (with_pend_closed h sj _ _ j Hc Hj).
+        intros id Hid. inversion Hid; subst. apply nth_error_Some. congruence.
       + exists []. rewrite app_nil_r. auto.
       + exists []. rewrite app_nil_r. auto.
-    - destruct o as [c|nc rows|id]; [| |exists []; rewrite app_nil_r; auto];
-        (destruct (nth_error h j) as [sj|]; [|exists []; rewrite app_nil_r; auto]).
-      + eexists [_]. split; [reflexivity|]. apply closed_snoc; [exact Hc|].
-        intros j' p' Hp. cbn in Hp. discriminate.
-      + eexists [_]. split; [reflexivity|]. apply closed_snoc; [exact Hc|].
-        intros j' p' Hp. cbn in Hp. discriminate.
+    - destruct o as [c|nc rows|id|v nc jac]; [| |exists []; rewrite app_nil_r; auto|];
+        (destruct (nth_error h j) as [sj|] eqn:Hj; [|exists []; rewrite app_nil_r; auto]);
+        (eexists [_]; split; [reflexivity|]; apply closed_snoc; [exact Hc|];
+         apply (with_pend_closed h sj _ _ j Hc Hj); intros id Hid; discriminate).
     - exists []. rewrite app_nil_r. split; [|exact Hc].
       destruct (apply (S (length h)) h i x); reflexivity.
   Qed.
@@ -611,6 +642,79 @@ Section Frame.
     destruct (apply (S (length h1)) h1 i x); reflexivity.
   Qed.
 
+  Lemma apply_top_unfold h i s x :
+    nth_error h i = Some s ->
+    apply_top h i x = bind (slice s x) (run_pend (apply (length h) h) (pend s)).
+  Proof. intros Hn. unfold apply_top. cbn [C36.apply]. rewrite Hn. reflexivity. Qed.
+
+  (* ================================================================ composition *)
+  (* what a non-slicer left operand does to the sliced quantity *)
+  Definition ext_op (o : operand) (p : pop) (y : value) : res value :=
+    pend_step (fun _ _ => Err Unmodelled) o p y.
+
+  (* appending one pending pair to a copy of S_j: first everything S_j does (its own
+     pending pairs included), then the new pair *)
+  Lemma appended_pair h j sj o p x :
+    closed h -> nth_error h j = Some sj ->
+    (forall id, o = OSlicer id -> id < length h) ->
+    let new := with_pend (copy sj) o p in
+    apply_top (h ++ [new]) (length h) x
+    = bind (apply_top h j x) (pend_step (fun i y => apply_top h i y) o p).
+  Proof.
+    intros Hc Hj Ho new.
+    assert (Hjl : j < length h) by (apply nth_error_Some; congruence).
+    assert (Hnew : nth_error (h ++ [new]) (length h) = Some new).
+    { rewrite nth_error_app2 by lia. rewrite Nat.sub_diag. reflexivity. }
+    rewrite (apply_top_unfold _ _ _ x Hnew). unfold new at 1. rewrite slice_with_pend.
+    rewrite (apply_top_unfold h j sj x Hj). rewrite bind_assoc. apply bind_ext. intros y.
+    cbn [pend new with_pend copy]. rewrite run_pend_app.
+    assert (Hlen : length (h ++ [new]) = S (length h)) by (rewrite app_length; cbn; lia).
+    rewrite Hlen.
+    rewrite (run_pend_ext (apply (S (length h)) (h ++ [new])) (apply (length h) h)).
+    2:{ intros k q z Hin. destruct (closed_lt h j sj k q Hc Hj Hin).
+        rewrite apply_ext by (assumption || lia). apply apply_fuel; [exact Hc|lia|lia]. }
+    apply bind_ext. intros z. cbn [C36.run_pend]. rewrite bind_ok.
+    destruct o as [c|nc rows|id|v nc jac]; cbn [C36.pend_step]; try reflexivity.
+    destruct p; try reflexivity.
+    rewrite apply_ext by (exact Hc || (apply Ho; reflexivity)). reflexivity.
+  Qed.
+
+  (* S_i @ S_j : a new object that does S_j (all of it), then S_i (all of it) — no guard *)
+  Theorem matmul_composes h i j si sj x :
+    closed h -> nth_error h i = Some si -> nth_error h j = Some sj ->
+    let h' := fst (step h (SMatSS i j)) in
+    snd (step h (SMatSS i j)) = ONew (length h) /\
+    nth_error h' i = Some si /\ nth_error h' j = Some sj /\
+    apply_top h' (length h) x = bind (apply_top h j x) (apply_top h i).
+  Proof.
+    intros Hc Hi Hj h'. subst h'. cbn [C36.step]. rewrite Hi, Hj. cbn [alloc fst snd].
+    assert (Hil : i < length h) by (apply nth_error_Some; congruence).
+    assert (Hjl : j < length h) by (apply nth_error_Some; congruence).
+    split; [reflexivity|]. split; [rewrite nth_error_app1 by exact Hil; exact Hi|].
+    split; [rewrite nth_error_app1 by exact Hjl; exact Hj|].
+    rewrite (appended_pair h j sj (OSlicer i) PMatmul x Hc Hj).
+    - apply bind_ext. intros y. reflexivity.
+    - intros id Hid. inversion Hid; subst. exact Hil.
+  Qed.
+
+  (* A op S_j : a new object that does S_j (all of it), then A op _ — no guard *)
+  Theorem rop_composes h o p j sj x :
+    closed h -> (forall id, o <> OSlicer id) -> nth_error h j = Some sj ->
+    let h' := fst (step h (SROp o p j)) in
+    snd (step h (SROp o p j)) = ONew (length h) /\
+    nth_error h' j = Some sj /\
+    apply_top h' (length h) x = bind (apply_top h j x) (ext_op o p).
+  Proof.
+    intros Hc Ho Hj h'. subst h'. cbn [C36.step].
+    assert (Hjl : j < length h) by (apply nth_error_Some; congruence).
+    assert (Hns : forall id, o = OSlicer id -> id < length h).
+    { intros id Hid. exfalso. eapply Ho. exact Hid. }
+    destruct o as [c|nc rows|id|v nc jac]; [| |exfalso; eapply Ho; reflexivity|];
+      rewrite Hj; cbn [alloc fst snd];
+      (split; [reflexivity|]); (split; [rewrite nth_error_app1 by exact Hjl; exact Hj|]);
+      rewrite (appended_pair h j sj _ p x Hc Hj Hns); apply bind_ext; intros y; reflexivity.
+  Qed.
+
   (* ================================================================ chains *)
   Fixpoint run_slices (ss : list slicer) (x : value) : res value :=
     match ss with
@@ -624,6 +728,26 @@ Section Frame.
     rewrite bind_assoc. apply bind_ext. intros y. apply IH.
   Qed.
 
+  (* the objects ids (in application order) applied one after the other *)
+  Fixpoint run_objs (h : heap) (ids : list nat) (x : value) : res value :=
+    match ids with
+    | [] => Ok x
+    | i :: r => bind (apply_top h i x) (run_objs h r)
+    end.
+
+  Lemma run_objs_app h a b x : run_objs h (a ++ b) x = bind (run_objs h a x) (run_objs h b).
+  Proof.
+    revert x; induction a as [|s a IH]; intros x; cbn [run_objs app]; [reflexivity|].
+    rewrite bind_assoc. apply bind_ext. intros y. apply IH.
+  Qed.
+
+  Lemma run_objs_ext h k ids x :
+    closed h -> Forall (fun i => i < length h) ids -> run_objs (h ++ k) ids x = run_objs h ids x.
+  Proof.
+    intros Hc HF. revert x. induction HF as [|i r Hi _ IH]; intros x; cbn [run_objs]; [reflexivity|].
+    rewrite apply_top_ext by assumption. apply bind_ext. intros y. apply IH.
+  Qed.
+
   (* python evaluates  S_cur @ S_j1 @ S_j2 @ ...  from the left: each @ allocates *)
   Fixpoint chain_prog (cur : nat) (rest : list nat) (nxt : nat) : list stmt :=
     match rest with
@@ -634,87 +758,62 @@ Section Frame.
   Definition chain_top (cur : nat) (rest : list nat) (nxt : nat) : nat :=
     match rest with [] => cur | _ => nxt + length rest - 1 end.
 
-  Lemma apply_top_unfold h i s x :
-    nth_error h i = Some s ->
-    apply_top h i x =
-    bind (slice s x) (fun y =>
-      match pend s with
-      | None => Ok y
-      | Some (OSlicer j, PMatmul) => apply (length h) h j y
-      | Some (OSlicer _, _) => Err Unmodelled
-      | Some (OScalar c, p) => ext_scalar p c y
-      | Some (OMat nc rows, p) => ext_mat p nc rows y
-      end).
-  Proof. intros Hn. unfold apply_top. cbn [C36.apply]. rewrite Hn. reflexivity. Qed.
-
-  Lemma chain_general rest : forall h cur ss x,
-      closed h -> cur < length h ->
-      Forall2 (fun j s => nth_error h j = Some s) rest ss ->
+  (* ANY objects (with or without pending pairs of their own) *)
+  Theorem chain_general rest : forall h cur x,
+      closed h -> cur < length h -> Forall (fun j => j < length h) rest ->
       let h' := fst (run h (chain_prog cur rest (length h))) in
       apply_top h' (chain_top cur rest (length h)) x =
-      bind (run_slices (rev ss) x) (apply_top h cur).
+      bind (run_objs h (rev rest) x) (apply_top h cur).
   Proof.
-    induction rest as [|j r IH]; intros h cur ss x Hc Hcur HF h'.
-    - inversion HF; subst. cbn. reflexivity.
-    - inversion HF as [|? s ? ss' Hj HF']; subst. subst h'.
-      cbn [chain_prog C36.run C36.step].
-      assert (Hcs : nth_error h cur <> None) by (apply nth_error_Some; exact Hcur).
-      destruct (nth_error h cur) as [sc|] eqn:Hsc; [|congruence]. rewrite Hj.
-      cbn [alloc].
-      set (new := with_pend (copy s) (OSlicer cur) PMatmul).
-      set (h1 := h ++ [new]).
-      assert (C1 : closed h1).
-      { apply closed_snoc; [exact Hc|]. intros j' p Hp. cbn in Hp. inversion Hp; subst. exact Hcur. }
+    induction rest as [|j r IH]; intros h cur x Hc Hcur HF h'.
+    - cbn. reflexivity.
+    - inversion HF as [|? ? Hj HF']; subst. subst h'.
+      destruct (nth_error h cur) as [sc|] eqn:Hsc;
+        [|exfalso; apply nth_error_None in Hsc; lia].
+      destruct (nth_error h j) as [sj|] eqn:Hsj;
+        [|exfalso; apply nth_error_None in Hsj; lia].
+      destruct (matmul_composes h cur j sc sj x Hc Hsc Hsj) as [_ [_ [_ _]]].
+      cbn [chain_prog C36.run].
+      assert (Hk : step h (SMatSS cur j)
+                   = (h ++ [with_pend (copy sj) (OSlicer cur) PMatmul], ONew (length h))).
+      { cbn [C36.step]. rewrite Hsc, Hsj. reflexivity. }
+      rewrite Hk.
+      set (h1 := h ++ [with_pend (copy sj) (OSlicer cur) PMatmul]) in *.
+      assert (C1' : closed h1).
+      { apply closed_snoc; [exact Hc|]. apply (with_pend_closed h sj _ _ j Hc Hsj).
+        intros id Hid. inversion Hid; subst. exact Hcur. }
       assert (L1 : length h1 = S (length h)) by (unfold h1; rewrite app_length; cbn; lia).
-      assert (HF1 : Forall2 (fun j s => nth_error h1 j = Some s) r ss').
-      { clear -HF'. induction HF' as [|a b la lb Hab _ IHF]; constructor; [|exact IHF].
-        unfold h1. rewrite nth_error_app1; [exact Hab|]. apply nth_error_Some. congruence. }
+      assert (HF1 : Forall (fun j => j < length h1) r).
+      { eapply Forall_impl; [|exact HF']. intros a Ha. cbn in Ha. lia. }
       assert (Hl : length h < length h1) by lia.
-      pose proof (IH h1 (length h) ss' x C1 Hl HF1) as IH1. cbn zeta in IH1.
-      rewrite L1 in IH1.
+      pose proof (IH h1 (length h) x C1' Hl HF1) as IH1. cbn zeta in IH1. rewrite L1 in IH1.
       destruct (run h1 (chain_prog (length h) r (S (length h)))) as [h2 os] eqn:Hrun.
       cbn [fst] in IH1 |- *.
       replace (chain_top cur (j :: r) (length h)) with (chain_top (length h) r (S (length h))).
       2:{ unfold chain_top. destruct r; cbn [length]; lia. }
-      rewrite IH1. cbn [rev]. rewrite run_slices_app, bind_assoc. apply bind_ext. intros y.
-      assert (Hnew : nth_error h1 (length h) = Some new).
-      { unfold h1. rewrite nth_error_app2 by lia. rewrite Nat.sub_diag. reflexivity. }
-      rewrite (apply_top_unfold h1 (length h) new y Hnew).
-      unfold new at 1. rewrite slice_with_pend. cbn [run_slices]. rewrite bind_assoc.
-      apply bind_ext. intros y'. cbn [bind pend new with_pend].
-      unfold h1 at 2. rewrite apply_ext by assumption. unfold apply_top. rewrite L1. reflexivity.
+      rewrite IH1. cbn [rev]. rewrite run_objs_app, bind_assoc.
+      unfold h1 at 1. rewrite run_objs_ext; [|exact Hc|].
+      2:{ apply Forall_forall. intros a Ha. apply in_rev in Ha. rewrite Forall_forall in HF'. auto. }
+      apply bind_ext. intros y. cbn [run_objs]. rewrite bind_assoc.
+      pose proof (matmul_composes h cur j sc sj y Hc Hsc Hsj) as [_ [_ [_ Hm]]].
+      rewrite Hk in Hm. cbn [fst] in Hm. rewrite Hm.
+      apply bind_ext. intros z. reflexivity.
   Qed.
 
-  (* plain slicers (no pending operand) *)
+  (* plain slicers (no pending pair) *)
   Lemma apply_top_plain h i s x :
-    nth_error h i = Some s -> pend s = None -> apply_top h i x = slice s x.
+    nth_error h i = Some s -> pend s = [] -> apply_top h i x = slice s x.
   Proof.
-    intros Hn Hp. rewrite (apply_top_unfold h i s x Hn), Hp. destruct (slice s x); reflexivity.
+    intros Hn Hp. rewrite (apply_top_unfold h i s x Hn), Hp. cbn. apply bind_ok.
   Qed.
 
-  (* pending right operand:  (A op S_j) @ x  =  A op (S_j @ x)  *)
-  Definition ext_op (o : operand) (p : pop) (y : value) : res value :=
-    match o with
-    | OScalar c => ext_scalar p c y
-    | OMat nc rows => ext_mat p nc rows y
-    | OSlicer _ => Err Unmodelled
-    end.
-
-  Lemma pending_general h o p j sj x :
-    (forall id, o <> OSlicer id) -> nth_error h j = Some sj ->
-    let h' := fst (step h (SROp o p j)) in
-    snd (step h (SROp o p j)) = ONew (length h) /\
-    apply_top h' (length h) x = bind (slice sj x) (ext_op o p).
+  Lemma run_objs_plain h ids ss x :
+    Forall2 (fun j s => nth_error h j = Some s /\ pend s = []) ids ss ->
+    run_objs h ids x = run_slices ss x.
   Proof.
-    intros Ho Hj h'. subst h'. cbn [C36.step]. rewrite Hj.
-    destruct o as [c|nc rows|id]; [| |exfalso; eapply Ho; reflexivity];
-      cbn [alloc fst snd]; (split; [reflexivity|]).
-    - rewrite (apply_top_unfold _ (length h) (with_pend (copy sj) (OScalar c) p)).
-      + rewrite slice_with_pend. reflexivity.
-      + rewrite nth_error_app2 by lia. rewrite Nat.sub_diag. reflexivity.
-    - rewrite (apply_top_unfold _ (length h) (with_pend (copy sj) (OMat nc rows) p)).
-      + rewrite slice_with_pend. reflexivity.
-      + rewrite nth_error_app2 by lia. rewrite Nat.sub_diag. reflexivity.
+    intros HF. revert x. induction HF as [|j s ids ss [Hj Hp] _ IH]; intros x; [reflexivity|].
+    cbn [run_objs run_slices]. rewrite (apply_top_plain h j s x Hj Hp).
+    apply bind_ext. intros y. apply IH.
   Qed.
 End Frame.
 
@@ -744,26 +843,31 @@ Proof.
     rewrite Hd1. reflexivity.
 Qed.
 
+Lemma Forall2_rev' {A B} (R : A -> B -> Prop) l1 l2 :
+  Forall2 R l1 l2 -> Forall2 R (rev l1) (rev l2).
+Proof.
+  induction 1 as [|a b l1 l2 Hab _ IH]; cbn; [constructor|].
+  apply Forall2_app; [exact IH|]. constructor; [exact Hab|constructor].
+Qed.
+
 Section Main.
   Variable ext_scalar : pop -> Z -> value -> res value.
   Variable ext_mat : pop -> nat -> list crow -> value -> res value.
-  Notation apply_top := (apply_top ext_scalar ext_mat).
-  Notation run := (run ext_scalar ext_mat).
-  Notation step := (step ext_scalar ext_mat).
-  Notation ext_op := (ext_op ext_scalar ext_mat).
+  Variable ext_ad : pop -> list Z -> nat -> list crow -> value -> res value.
+  Notation apply_top := (apply_top ext_scalar ext_mat ext_ad).
+  Notation run := (run ext_scalar ext_mat ext_ad).
+  Notation step := (step ext_scalar ext_mat ext_ad).
+  Notation ext_op := (ext_op ext_scalar ext_mat ext_ad).
 
-  (* what remains to be done after the slicing of the leftmost chain member *)
+  (* the pending pairs of the leftmost chain member, when none of them is a slicer:
+     plain numpy / scipy / AdArray arithmetic applied innermost first *)
   Definition tail_op (sc : slicer) (y : value) : res value :=
-    match pend sc with
-    | None => Ok y
-    | Some (o, p) => ext_op o p y
-    end.
+    run_pend ext_scalar ext_mat ext_ad (fun _ _ => Err Unmodelled) (pend sc) y.
 
   Theorem chain_is_matrix_product h cur sc rest ss x n :
     closed h -> nth_error h cur = Some sc ->
-    (forall j p, pend sc <> Some (OSlicer j, p)) ->
-    Forall2 (fun j s => nth_error h j = Some s) rest ss ->
-    Forall (fun s => pend s = None) ss ->
+    (forall j p, ~ In (OSlicer j, p) (pend sc)) ->
+    Forall2 (fun j s => nth_error h j = Some s /\ pend s = []) rest ss ->
     chain_ok (rev (sc :: ss)) n -> vfits n x ->
     let h' := fst (run h (chain_prog cur rest (length h))) in
     exists y,
@@ -771,25 +875,28 @@ Section Main.
       dense (out_size (rev (sc :: ss)) n) y
       = fold_right (fun s acc => mat_apply (denote s) acc) (dense n x) (sc :: ss).
   Proof.
-    intros Hc Hcur Hns HF _ Hok Hfit h'.
+    intros Hc Hcur Hns HF Hok Hfit h'.
     assert (Hlt : cur < length h) by (apply nth_error_Some; congruence).
-    pose proof (chain_general ext_scalar ext_mat rest h cur ss x Hc Hlt HF) as Hg.
+    assert (Hrest : Forall (fun j => j < length h) rest).
+    { clear -HF. induction HF as [|j s r ss [Hj _] _ IH]; constructor; [|exact IH].
+      apply nth_error_Some. congruence. }
+    pose proof (chain_general ext_scalar ext_mat ext_ad rest h cur x Hc Hlt Hrest) as Hg.
     cbn zeta in Hg. subst h'. rewrite Hg.
+    rewrite (run_objs_plain ext_scalar ext_mat ext_ad h (rev rest) (rev ss) x (Forall2_rev' _ _ _ HF)).
     destruct (run_slices_matrix (rev (sc :: ss)) n x Hok Hfit) as [y [Hy [Hf Hd]]].
     exists y. split.
     - cbn [rev] in Hy. rewrite run_slices_app in Hy.
       destruct (run_slices (rev ss) x) as [y0|e] eqn:H0; [|discriminate]. cbn [bind] in Hy |- *.
-      rewrite (apply_top_unfold ext_scalar ext_mat h cur sc y0 Hcur).
+      rewrite (apply_top_unfold ext_scalar ext_mat ext_ad h cur sc y0 Hcur).
       cbn [run_slices] in Hy. destruct (slice sc y0) as [y1|e]; [|discriminate].
       cbn [bind] in Hy |- *. inversion Hy; subst y1. unfold tail_op.
-      destruct (pend sc) as [[[c|nc rows|j] p]|] eqn:Hp; try reflexivity.
-      exfalso. eapply Hns. reflexivity.
+      apply run_pend_ext. intros j p z Hin. exfalso. eapply Hns. exact Hin.
     - rewrite Hd. rewrite <- (fold_left_rev_right _ (rev (sc :: ss))). rewrite rev_involutive.
       reflexivity.
   Qed.
 
   Theorem pending_is_op_after_matrix h o p j sj x :
-    (forall id, o <> OSlicer id) -> nth_error h j = Some sj -> pend sj = None ->
+    closed h -> (forall id, o <> OSlicer id) -> nth_error h j = Some sj -> pend sj = [] ->
     wf_slicer sj -> NoDup (rng sj) -> vfits (dsize sj) x ->
     let h' := fst (step h (SROp o p j)) in
     snd (step h (SROp o p j)) = ONew (length h) /\
@@ -797,56 +904,54 @@ Section Main.
     exists y, apply_top h' (length h) x = ext_op o p y /\
               forall n, dense n y = mat_apply (denote sj) (dense (dsize sj) x).
   Proof.
-    intros Ho Hj _ Hwf Hnd Hfit h'.
-    destruct (pending_general ext_scalar ext_mat h o p j sj x Ho Hj) as [Hnew Happ].
-    split; [exact Hnew|]. split.
-    - subst h'. cbn [C36.step]. rewrite Hj.
-      destruct o as [c|nc rows|id]; [| |exfalso; eapply Ho; reflexivity]; cbn [alloc fst];
-        (rewrite nth_error_app1; [exact Hj | apply nth_error_Some; congruence]).
-    - destruct (apply_is_matrix sj x Hwf Hnd Hfit) as [y [Hy [_ [_ Hd]]]].
-      exists y. split; [|exact Hd]. subst h'. rewrite Happ, Hy. reflexivity.
+    intros Hc Ho Hj Hp Hwf Hnd Hfit h'.
+    destruct (rop_composes ext_scalar ext_mat ext_ad h o p j sj x Hc Ho Hj) as [Hnew [Hkeep Happ]].
+    split; [exact Hnew|]. split; [exact Hkeep|].
+    destruct (apply_is_matrix sj x Hwf Hnd Hfit) as [y [Hy [_ [_ Hd]]]].
+    exists y. split; [|exact Hd]. subst h'. rewrite Happ.
+    rewrite (apply_top_plain ext_scalar ext_mat ext_ad h j sj x Hj Hp), Hy. reflexivity.
   Qed.
 End Main.
 
 (* ================================================================== refutations *)
-Definition S_10 := mkS [1; 0] [0; 1] 2 2 true false None.
-Definition S_02 := mkS [0; 2] [0; 1] 2 3 true false None.
+Definition S_10 := mkS [1; 0] [0; 1] 2 2 true false [].
+Definition S_02 := mkS [0; 2] [0; 1] 2 3 true false [].
 
 Ltac closed_concrete :=
   let i := fresh "i" in let s := fresh "s" in let j := fresh "j" in let p := fresh "p" in
   let Hn := fresh "Hn" in let Hp := fresh "Hp" in
   intros i s j p Hn Hp;
   do 6 (destruct i as [|i];
-        [cbn in Hn; inversion Hn; subst; cbn in Hp; try discriminate;
-         try (inversion Hp; subst; lia) |]);
+        [cbn in Hn; inversion Hn; subst; cbn in Hp;
+         repeat (destruct Hp as [Hp|Hp]; [try discriminate; try (inversion Hp; subst; lia)|]);
+         try contradiction |]);
   cbn in Hn; destruct i; discriminate.
 
-(* the pre-fix in-place  S0 @ S1  changes what S1 does afterwards *)
+(* the original in-place  S0 @ S1  changes what S1 does afterwards *)
 Lemma inplace_variant_refuted :
   exists h i j x,
     closed h /\
     let h' := fst (matmul_ss_inplace h i j) in
-    apply_top ext_scalarZ ext_matZ h' j x <> apply_top ext_scalarZ ext_matZ h j x.
+    apply_top ext_scalarZ ext_matZ ext_adZ h' j x <> apply_top ext_scalarZ ext_matZ ext_adZ h j x.
 Proof.
   exists [S_10; S_02], 0, 1, (VVec [10; 20; 30]%Z). split.
   - closed_concrete.
   - vm_compute. discriminate.
 Qed.
 
-(* X @ (Y @ S): the copy of (Y @ S) loses Y — open finding *)
-Definition P_201 := mkS [2; 0; 1] [0; 1; 2] 3 3 false false None.
-Definition P_102 := mkS [1; 0; 2] [0; 1; 2] 3 3 false false None.
-Definition P_021 := mkS [0; 2; 1] [0; 1; 2] 3 3 false false None.
+(* copy-and-overwrite (the code between the two repairs):  X @ (Y @ S)  loses Y *)
+Definition P_201 := mkS [2; 0; 1] [0; 1; 2] 3 3 false false [].
+Definition P_102 := mkS [1; 0; 2] [0; 1; 2] 3 3 false false [].
+Definition P_021 := mkS [0; 2; 1] [0; 1; 2] 3 3 false false [].
 
-Lemma pending_overwritten_refuted :
-  exists h i j sj x,
-    closed h /\ nth_error h j = Some sj /\ pend sj <> None /\
-    let h' := fst (step ext_scalarZ ext_matZ h (SMatSS i j)) in
-    apply_top ext_scalarZ ext_matZ h' (length h) x
-    <> bind (apply_top ext_scalarZ ext_matZ h j x) (apply_top ext_scalarZ ext_matZ h i).
+Lemma overwrite_variant_refuted :
+  exists h i j x,
+    closed h /\
+    let h' := fst (matmul_ss_overwrite h i j) in
+    apply_top ext_scalarZ ext_matZ ext_adZ h' (length h) x
+    <> bind (apply_top ext_scalarZ ext_matZ ext_adZ h j x) (apply_top ext_scalarZ ext_matZ ext_adZ h i).
 Proof.
   exists [P_201; P_102; P_021; with_pend (copy P_021) (OSlicer 1) PMatmul], 0, 3,
-         (with_pend (copy P_021) (OSlicer 1) PMatmul), (VVec [10; 20; 30]%Z).
-  split; [|split; [reflexivity|split; [discriminate|vm_compute; discriminate]]].
-  closed_concrete.
+         (VVec [10; 20; 30]%Z).
+  split; [closed_concrete|vm_compute; discriminate].
 Qed.
